@@ -434,12 +434,16 @@ func c01NilSkip(c *Ctx, leaf *ssa.Function) {
 // c01UnsetRepr uses the type-checked AST: return statements of pointerifyField.
 func c01UnsetRepr(c *Ctx, pfield *ssa.Function) {
 	name := relName(pfield)
-	orig := pfield.Params[0]
+	orig := c01FieldParam(pfield)
 	pb := &predBuilder{}
 	n := 0
 	for _, r := range returnsOf(pfield) {
-		rv := retVals(r)[0]
-		if isNilConst(rv) {
+		rv, dropped, okForm := c01RetField(r)
+		if !okForm {
+			c.undecided("unset-repr", name+"#return-form", r.Pos(), "a return of pointerifyField is neither a *StructField nor a (StructField, bool) pair with a constant flag")
+			continue
+		}
+		if dropped {
 			continue
 		}
 		n++
@@ -454,8 +458,8 @@ func c01UnsetRepr(c *Ctx, pfield *ssa.Function) {
 			}
 		}
 		// returns &originalField (the spilled parameter) ?
-		isOrig := false
-		if al, ok := rv.(*ssa.Alloc); ok {
+		isOrig := rv == ssa.Value(orig)
+		if al, ok := rv.(*ssa.Alloc); ok && !isOrig {
 			// an untouched whole copy of the spilled parameter (`originalField := originalField`) stands for it;
 			// a copy that is written afterwards (`newSF := originalField; newSF.Type = ...`) does not
 			for hops := 0; hops < 3; hops++ {
@@ -633,6 +637,10 @@ func c01Omit(c *Ctx, merge, leaf, ptrfy, pfield, omit *ssa.Function) {
 			if v == ssa.Value(pc) {
 				return "sf"
 			}
+			// the (field, keep) form: keep stands for "the field was not dropped"
+			if ex, ok := v.(*ssa.Extract); ok && ex.Tuple == ssa.Value(pc) && ex.Index == 1 {
+				return "!isnil(sf)"
+			}
 			return ""
 		}}
 		g2 := pb2.pathCond(oc.Block(), app.Block())
@@ -644,7 +652,7 @@ func c01Omit(c *Ctx, merge, leaf, ptrfy, pfield, omit *ssa.Function) {
 	pbk := &predBuilder{}
 	var nilF formula = fConst{false}
 	for _, r := range returnsOf(pfield) {
-		if isNilConst(retVals(r)[0]) {
+		if _, dropped, okForm := c01RetField(r); okForm && dropped {
 			nilF = mkOr(nilF, pbk.pathCond(pfield.Blocks[0], r.Block()))
 		}
 	}
@@ -657,7 +665,7 @@ func c01Omit(c *Ctx, merge, leaf, ptrfy, pfield, omit *ssa.Function) {
 			ks := kindsWhere(nilF, a)
 			desc = a + " in " + kindSetString(ks)
 			// and it is the kind of the field's own type
-			if len(ks) == 2 && ks[kChan] && ks[kFunc] && strings.Contains(a, pfield.Params[0].Name()) {
+			if len(ks) == 2 && ks[kChan] && ks[kFunc] && strings.Contains(a, c01FieldParam(pfield).Name()) {
 				okNil = true
 			}
 		}
@@ -914,4 +922,46 @@ func allocFieldWritten(al *ssa.Alloc) bool {
 		}
 	}
 	return false
+}
+
+// c01FieldParam: the parameter of pointerifyField that is the original field (the one of type reflect.StructField).
+func c01FieldParam(pfield *ssa.Function) *ssa.Parameter {
+	for _, p := range pfield.Params {
+		if p.Type().String() == "reflect.StructField" {
+			return p
+		}
+	}
+	return pfield.Params[0]
+}
+
+// c01RetField reads one return of pointerifyField in either of its two forms: a *StructField with nil for "drop
+// the field", or a (StructField, keep bool) pair. It returns the field value (the address of the local it was
+// built in where there is one), whether this return drops the field, and whether the form was understood.
+func c01RetField(r *ssa.Return) (val ssa.Value, dropped, ok bool) {
+	rv := retVals(r)
+	switch len(rv) {
+	case 1:
+		return rv[0], isNilConst(rv[0]), true
+	case 2:
+		if bt, isB := rv[1].Type().Underlying().(*types.Basic); !isB || bt.Info()&types.IsBoolean == 0 {
+			return nil, false, false
+		}
+		v := rv[0]
+		if ld, isLd := v.(*ssa.UnOp); isLd && ld.Op == token.MUL {
+			if al, isAl := ld.X.(*ssa.Alloc); isAl {
+				v = al
+			}
+		}
+		if cst, isC := rv[1].(*ssa.Const); isC && cst.Value != nil {
+			return v, cst.Value.ExactString() == "false", true
+		}
+		// the pair of a recursive call handed on
+		if ex, isEx := rv[1].(*ssa.Extract); isEx {
+			if ex0, isEx0 := rv[0].(*ssa.Extract); isEx0 && ex0.Tuple == ex.Tuple {
+				return ex.Tuple, false, true
+			}
+		}
+		return nil, false, false
+	}
+	return nil, false, false
 }
